@@ -754,3 +754,15 @@ Section BytesModes.
     exists data offs, select_w (enc v) ps MAll [] = Ok (data, offs) /\ ModeProofs.cut data 0 offs = map enc items.
   Proof. rewrite (select_w_enc v ps MAll [] Hwf). apply (ModeProofs.offsets_delimit (normalise v) ps items Hsel Hnp). Qed.
 End BytesModes.
+
+(* the public walker functions and the view-level ones of Dispatch.v agree on encodings *)
+Theorem get_by_path_gen_w_m md v ps buf : wfb v = true -> top_ok v ->
+  get_by_path_gen_w md (enc v) ps buf = get_by_path_gen md (enc v) ps buf.
+Proof. intros H T. unfold get_by_path_gen_w, get_by_path_gen. rewrite (is_jsonb_enc v H T). apply select_w_m. exact H. Qed.
+Theorem path_exists_w_m v ps : wfb v = true -> top_ok v -> path_exists_w (enc v) ps = path_exists_m (enc v) ps.
+Proof. intros H T. unfold path_exists_w, path_exists_m. rewrite (is_jsonb_enc v H T). apply sel_exists_w_m. exact H. Qed.
+Theorem path_match_w_m v ps : wfb v = true -> top_ok v -> path_match_w (enc v) ps = path_match_m (enc v) ps.
+Proof.
+  intros H T. unfold path_match_w, path_match_m. rewrite (doc_of_enc v H T), (is_jsonb_enc v H T). cbn [bind].
+  apply sel_predicate_match_w_enc. exact H.
+Qed.
